@@ -1022,7 +1022,16 @@ fn root_witness() -> Vec<f32> {
 /// with target = hidden it is zeroed.  Returns the leaf's (width, height) in both scenarios.
 fn stale_witness() -> [f32; 4] {
     let mut out = [0.0f32; 4];
-    for (k, below_mid) in [true, false].into_iter().enumerate() {
+    // scenario 0: two levels below the display:none node (the known finding); scenarios 1..: directly under the display:none node, through
+    // every attaching method, with and without an explicit mark_dirty(root) -- all of them must zero the attached subtree
+    for (k, below_mid, method, dirty_root) in [
+        (0usize, true, 0u8, true),
+        (1, false, 0, true),
+        (1, false, 0, false),
+        (1, false, 1, false),
+        (1, false, 2, false),
+        (1, false, 3, false),
+    ] {
         let mut t: TaffyTree<()> = TaffyTree::new();
         t.disable_rounding();
         let mid = t.new_with_children(Style::DEFAULT, &[]).unwrap();
@@ -1036,12 +1045,26 @@ fn stale_witness() -> [f32; 4] {
         let leaf = t.new_leaf(ls).unwrap();
         let sub = t.new_with_children(Style::DEFAULT, &[leaf]).unwrap();
         t.compute_layout(sub, Size::MAX_CONTENT).unwrap();
-        t.set_children(if below_mid { mid } else { hidden }, &[sub]).unwrap();
-        t.mark_dirty(root).unwrap();
+        let target = if below_mid { mid } else { hidden };
+        match method {
+            0 => t.set_children(target, &[sub]).unwrap(),
+            1 => {
+                t.add_child(target, sub).unwrap();
+            }
+            2 => {
+                t.insert_child_at_index(target, 0, sub).unwrap();
+            }
+            _ => {
+                t.replace_child_at_index(target, 0, sub).unwrap();
+            }
+        }
+        if dirty_root {
+            t.mark_dirty(root).unwrap();
+        }
         t.compute_layout(root, Size::MAX_CONTENT).unwrap();
         let l = t.unrounded_layout(leaf);
-        out[2 * k] = l.size.width;
-        out[2 * k + 1] = l.size.height;
+        out[2 * k] = out[2 * k].max(l.size.width);
+        out[2 * k + 1] = out[2 * k + 1].max(l.size.height);
     }
     out
 }
